@@ -60,7 +60,9 @@ func (cache *CacheLRU) GetTime(key string) (int64, error) {
 
 func (cache *CacheLRU) Flush() {
 	clear(cache.keys)
+	// Zero the entries so they can be collected, then drop them from the heap.
 	clear(cache.entries)
+	cache.entries = cache.entries[:0]
 }
 
 func (cache *CacheLRU) Len() int {
@@ -84,6 +86,7 @@ func (cache *CacheLRU) Push(key any) {
 		unixTime: time.Now().UnixMilli(),
 		index:    n,
 	})
+	cache.keys[key.(string)] = true
 }
 
 func (cache *CacheLRU) Pop() any {
